@@ -869,12 +869,13 @@ class SyncGroup(SyncGroupBase):
     def update_devices(self, data):
         self.current_data[:] = data
         for pos, counts in self.packet.counters.items():
-            if data[pos] != counts:
+            wkc = data[pos] | data[pos + 1] << 8
+            if wkc != counts:
                 logging.warning(
                     'EtherCAT datagram "%s" processed %i times, should be %i',
-                    self.name, data[pos], counts)
+                    self.name, wkc, counts)
                 self.wkc_errors += 1
-            self.current_data[pos] = 0
+            self.current_data[pos] = self.current_data[pos + 1] = 0
         for dev in self.devices:
             dev.update()
         return self.current_data
